@@ -1,7 +1,1001 @@
-//! C09: correspondence + oracle runs (sub-commands `c09` / `c09-*`).
+//! C09: IpTable longest-prefix match + subnet arithmetic + CIDR text.
+//! Sub-commands: `c09` (random tables and op histories), `c09-grid` (every mask length x boundary
+//! addresses, deterministic bases first).  Ops are text lines (the same lines drive the Lean
+//! model); addresses and masks are decimal u32, strings hex of their bytes.
+//!
+//! The oracle is written from the property, not from the code: networks are `(id, len)` pairs,
+//! membership is `id <= a <= id + 2^(32-len) - 1` in u64, lookup is a brute-force search for the
+//! containing key of greatest length in a shadow `HashMap` that follows "last add wins, remove
+//! deletes", iteration order is (len descending, id ascending).  CIDR text is judged by a strict
+//! grammar (`d.d.d.d/n`); for text outside it the property is silent and the shadow follows what
+//! the implementation did (classified against the recorded leniency for the statistics).
+use elvis_core::ip_table::IpTable;
+use elvis_core::protocols::arp::subnetting::*;
+use elvis_core::protocols::ipv4::Ipv4Address;
 use hcommon::*;
+use std::collections::HashMap;
+
+// ---------------------------------------------------------------- oracle arithmetic (u64)
+fn o_len(len: u64) -> u32 {
+    len.min(32) as u32
+}
+fn o_size(len: u32) -> u64 {
+    1u64 << (32 - len)
+}
+fn o_id(ip: u32, len: u32) -> u32 {
+    (ip as u64 / o_size(len) * o_size(len)) as u32
+}
+fn o_last(id: u32, len: u32) -> u32 {
+    (id as u64 + o_size(len) - 1) as u32
+}
+fn o_contains(id: u32, len: u32, a: u32) -> bool {
+    id as u64 <= a as u64 && a as u64 <= id as u64 + o_size(len) - 1
+}
+fn o_bits(len: u32) -> u32 {
+    // the `len` high bits
+    ((0xFFFF_FFFFu64 << (32 - len)) & 0xFFFF_FFFF) as u32
+}
+
+/// what a CIDR string denotes: `d.d.d.d/n`, octets 0..=255 without leading zeros, n in 0..=32
+/// written without sign or leading zeros
+fn strict_cidr(s: &str) -> Option<(u32, u32)> {
+    let (ip, len) = s.split_once('/')?;
+    let dec = |t: &str, max: u64| -> Option<u64> {
+        if t.is_empty() || t.len() > 3 || !t.bytes().all(|b| b.is_ascii_digit()) || (t.len() > 1 && t.starts_with('0')) {
+            return None;
+        }
+        let v: u64 = t.parse().ok()?;
+        (v <= max).then_some(v)
+    };
+    let octs: Vec<&str> = ip.split('.').collect();
+    if octs.len() != 4 {
+        return None;
+    }
+    let mut v = 0u32;
+    for o in octs {
+        v = v * 256 + dec(o, 255)? as u32;
+    }
+    Some((v, dec(len, 32)? as u32))
+}
+
+/// the observed contract of `cidr_to_ip` (documented in notes/C09.md): strict address; the length
+/// may carry a `+`, leading zeros and any value up to u32::MAX (clamped to 32); further
+/// `/`-separated parts are ignored.  Returns the class of leniency used.
+fn lenient_cidr(s: &str) -> Option<(u32, u32, &'static str)> {
+    let parts: Vec<&str> = s.split('/').collect();
+    if parts.len() < 2 {
+        return None;
+    }
+    let (ip, _) = strict_cidr(&format!("{}/0", parts[0]))?;
+    let mut why = "strict";
+    if parts.len() > 2 {
+        why = "extra_parts";
+    }
+    let mut m = parts[1];
+    if m.len() > 1 && m.starts_with('+') {
+        m = &m[1..];
+        why = "plus_sign";
+    }
+    if m.is_empty() || !m.bytes().all(|b| b.is_ascii_digit()) {
+        return None;
+    }
+    if m.len() > 1 && m.starts_with('0') && why == "strict" {
+        why = "len_leading_zeros";
+    }
+    let t = m.trim_start_matches('0');
+    let v: u64 = if t.is_empty() { 0 } else if t.len() > 10 { return None } else { t.parse().ok()? };
+    if v > u32::MAX as u64 {
+        return None;
+    }
+    if v > 32 {
+        why = "len_gt_32";
+    }
+    Some((ip, o_len(v), why))
+}
+
+/// Which key a CIDR string stands for in the shadow map.  Text that denotes a network (strict
+/// grammar) is decided by the oracle alone; for any other text the property is silent, so the
+/// shadow follows what the implementation did with it (accepted as which network / rejected) and
+/// only classifies it against the recorded leniency.
+fn text_key(s: &str) -> (Option<(u32, u32)>, &'static str) {
+    if let Some((a, l)) = strict_cidr(s) {
+        return (Some((o_id(a, l), l)), "strict");
+    }
+    match catch(|| Ipv4Net::from_cidr(s).ok()) {
+        Ok(Some(n)) => {
+            let key = (n.id().to_u32(), n.mask().count_ones());
+            match lenient_cidr(s) {
+                Some((a, l, why)) if (o_id(a, l), l) == key => (Some(key), why),
+                _ => (Some(key), "unrecorded"),
+            }
+        }
+        _ => (None, "rejected"),
+    }
+}
+
+// ---------------------------------------------------------------- executor
+pub struct Exec {
+    table: IpTable<u32>,
+    shadow: HashMap<(u32, u32), u32>,
+    saw_nested_lookup: bool,
+    saw_replace_or_remove: bool,
+}
+
+fn ip(a: u32) -> Ipv4Address {
+    Ipv4Address::from(a)
+}
+
+fn show_opt(v: Option<u32>) -> String {
+    v.map(|x| x.to_string()).unwrap_or_else(|| "-".into())
+}
+
+fn show_net(n: &Ipv4Net) -> String {
+    format!("{}/{}", n.id().to_u32(), n.mask().count_ones())
+}
+
+fn dump(t: &IpTable<u32>) -> String {
+    let v: Vec<String> = t.iter().map(|(n, v)| format!("{}={}", show_net(&n), v)).collect();
+    if v.is_empty() {
+        "-".into()
+    } else {
+        v.join(",")
+    }
+}
+
+fn panic_text(p: &PanicInfo) -> String {
+    let text = source_line_text(&p.file, p.line);
+    if p.file.ends_with("ip_table.rs") && text.contains(".expect(\"CIDR string formatted incorrectly\")") {
+        "panic:expect:remove_cidr".into()
+    } else {
+        format!("panic:other:{}:{}", p.file.rsplit('/').next().unwrap_or(""), text.replace(' ', "_"))
+    }
+}
+
+fn panic_ident(p: &PanicInfo) -> String {
+    format!("panic {} {}", p.file.rsplit('/').next().unwrap_or(""), source_line_text(&p.file, p.line))
+}
+
+fn parse_net_tok(s: &str) -> Option<(u32, u64)> {
+    let (a, l) = s.split_once('/')?;
+    Some((a.parse().ok()?, l.parse().ok()?))
+}
+
+fn cidr_line(s: &str) -> String {
+    match (cidr_to_ip(s), Ipv4Net::from_cidr(s)) {
+        (Ok((a, m)), Ok(n)) => format!("ok {} {} {}", a.to_u32(), m.to_u32(), show_net(&n)),
+        (Err(CidrParseError::Ipv4), Err(_)) => "err ipv4".into(),
+        (Err(CidrParseError::Mask(_)), Err(_)) => "err mask".into(),
+        _ => "err inconsistent".into(),
+    }
+}
+
+impl Exec {
+    pub fn new() -> Self {
+        Exec { table: IpTable::new(), shadow: HashMap::new(), saw_nested_lookup: false, saw_replace_or_remove: false }
+    }
+
+    fn o_lpm(&self, a: u32) -> (Option<u32>, usize) {
+        let mut best: Option<(u32, u32)> = None;
+        let mut n = 0;
+        for (&(id, len), &v) in self.shadow.iter() {
+            if o_contains(id, len, a) {
+                n += 1;
+                if best.map(|(l, _)| len > l).unwrap_or(true) {
+                    best = Some((len, v));
+                }
+            }
+        }
+        (best.map(|b| b.1), n)
+    }
+
+    /// the table must iterate as the abstract map sorted by (len descending, id ascending)
+    fn check_table(&mut self, line: &str, op: &str, out: &mut Out) {
+        let mut exp: Vec<((u32, u32), u32)> = self.shadow.iter().map(|(k, v)| (*k, *v)).collect();
+        exp.sort_by(|a, b| b.0 .1.cmp(&a.0 .1).then(a.0 .0.cmp(&b.0 .0)));
+        let got: Vec<((u32, u32), u32)> = self.table.iter().map(|(n, v)| ((n.id().to_u32(), n.mask().count_ones()), v)).collect();
+        if exp != got {
+            out.fail(
+                &format!("after `{}` the table iterates as {:?} but the ops so far denote {:?} (id,len)->value in (len desc, id asc) order", line, got, exp),
+                &format!("table-content {}", op),
+            );
+            // resynchronise
+            self.shadow = got.into_iter().collect();
+        }
+    }
+
+    /// order independence through the public constructors: the final content, re-inserted in
+    /// reverse order through each `FromIterator` form, must give an equal table (`==`, same
+    /// iteration order, same lookups at every key boundary)
+    pub fn check_collect(&mut self, out: &mut Out) {
+        let entries: Vec<(Ipv4Net, u32)> = self.table.iter().collect();
+        let rev: Vec<(Ipv4Net, u32)> = entries.iter().rev().cloned().collect();
+        let texts: Vec<(String, u32)> = rev.iter().map(|(n, v)| (format!("{}/{}", n.id(), n.mask().count_ones()), *v)).collect();
+        let r = catch(|| {
+            let a: IpTable<u32> = rev.iter().cloned().collect();
+            let b: IpTable<u32> = rev.iter().map(|(n, v)| ((n.id(), n.mask()), *v)).collect();
+            let c: IpTable<u32> = texts.iter().map(|(s, v)| (s.as_str(), *v)).collect();
+            // duplicates first: a stale value added earlier must be replaced
+            let mut d: IpTable<u32> = IpTable::new();
+            for (n, v) in rev.iter() {
+                d.add(*n, v.wrapping_add(1));
+            }
+            for (n, v) in entries.iter() {
+                d.add(*n, *v);
+            }
+            (a, b, c, d)
+        });
+        match r {
+            Ok((a, b, c, d)) => {
+                out.count("collect.checked");
+                for (name, t) in [("(Ipv4Net, T)", &a), ("((Ipv4Address, Ipv4Mask), T)", &b), ("(&str, T)", &c), ("add twice", &d)] {
+                    let same_iter = t.iter().collect::<Vec<_>>() == entries;
+                    if *t != self.table || !same_iter {
+                        out.fail(&format!("re-inserting the table's {} entries in reverse order via {} gives a different table: {} vs {}", entries.len(), name, dump(t), dump(&self.table)), "order-dependence");
+                    }
+                }
+            }
+            Err(p) => out.fail(&format!("collecting into an IpTable panicked: {}", p.msg), &panic_ident(&p)),
+        }
+    }
+
+    pub fn apply(&mut self, line: &str, out: &mut Out) {
+        let w: Vec<&str> = line.split_whitespace().collect();
+        let u = |s: &str| -> Option<u32> { s.parse::<u32>().ok() };
+        let l64 = |s: &str| -> Option<u64> { s.parse::<u64>().ok() };
+        let real_len = |l: u64| -> u32 { l.min(u32::MAX as u64) as u32 };
+        if w.is_empty() {
+            return out.line(line, "bad-op");
+        }
+        out.count(&format!("op.{}", w[0]));
+        match w.as_slice() {
+            ["add", _, _, _] | ["remove", _, _] => {
+                let is_add = w[0] == "add";
+                let (Some(a), Some(l)) = (u(w[1]), l64(w[2])) else { return out.line(line, "bad-op") };
+                if l > u32::MAX as u64 {
+                    return out.line(line, "bad-op");
+                }
+                let val = if is_add {
+                    match u(w[3]) {
+                        Some(v) => v,
+                        None => return out.line(line, "bad-op"),
+                    }
+                } else {
+                    0
+                };
+                let t = &mut self.table;
+                let r = catch(|| {
+                    let net = Ipv4Net::new(ip(a), Ipv4Mask::from_bitcount(real_len(l)));
+                    if is_add {
+                        t.add(net, val)
+                    } else {
+                        t.remove(net)
+                    }
+                });
+                match r {
+                    Ok(old) => {
+                        out.line(line, &format!("ok old={} iter={}", show_opt(old), dump(&self.table)));
+                        let key = (o_id(a, o_len(l)), o_len(l));
+                        let exp_old = if is_add { self.shadow.insert(key, val) } else { self.shadow.remove(&key) };
+                        if old.is_some() {
+                            self.saw_replace_or_remove = true;
+                            out.count(if is_add { "add.replaced" } else { "remove.hit" });
+                        }
+                        if exp_old != old {
+                            out.fail(&format!("`{}` returned old value {:?}, the map denoted by the history holds {:?}", line, old, exp_old), &format!("old-value {}", w[0]));
+                        }
+                        self.check_table(line, w[0], out);
+                    }
+                    Err(p) => {
+                        out.line(line, &format!("err {} iter={}", panic_text(&p), dump(&self.table)));
+                        out.fail(&format!("`{}` panicked: {}", line, p.msg), &panic_ident(&p));
+                    }
+                }
+            }
+            ["add1", a, v] | ["add_direct", a, v] => {
+                let (Some(a), Some(val)) = (u(a), u(v)) else { return out.line(line, "bad-op") };
+                let t = &mut self.table;
+                let direct = w[0] == "add_direct";
+                let r = catch(|| {
+                    if direct {
+                        t.add_direct(ip(a), val);
+                        None
+                    } else {
+                        Some(t.add(Ipv4Net::new_1(ip(a)), val))
+                    }
+                });
+                match r {
+                    Ok(old) => {
+                        let exp_old = self.shadow.insert((a, 32), val);
+                        if exp_old.is_some() {
+                            self.saw_replace_or_remove = true;
+                        }
+                        match old {
+                            Some(old) => {
+                                out.line(line, &format!("ok old={} iter={}", show_opt(old), dump(&self.table)));
+                                if old != exp_old {
+                                    out.fail(&format!("`{}` returned old value {:?}, expected {:?}", line, old, exp_old), "old-value add1");
+                                }
+                            }
+                            None => out.line(line, &format!("ok iter={}", dump(&self.table))),
+                        }
+                        self.check_table(line, w[0], out);
+                    }
+                    Err(p) => {
+                        out.line(line, &format!("err {} iter={}", panic_text(&p), dump(&self.table)));
+                        out.fail(&format!("`{}` panicked: {}", line, p.msg), &panic_ident(&p));
+                    }
+                }
+            }
+            ["remove_direct", a] => {
+                let Some(a) = u(a) else { return out.line(line, "bad-op") };
+                let t = &mut self.table;
+                match catch(|| t.remove_direct(ip(a))) {
+                    Ok(old) => {
+                        out.line(line, &format!("ok old={} iter={}", show_opt(old), dump(&self.table)));
+                        let exp_old = self.shadow.remove(&(a, 32));
+                        if old.is_some() {
+                            self.saw_replace_or_remove = true;
+                        }
+                        if old != exp_old {
+                            out.fail(&format!("`{}` returned old value {:?}, expected {:?}", line, old, exp_old), "old-value remove_direct");
+                        }
+                        self.check_table(line, w[0], out);
+                    }
+                    Err(p) => {
+                        out.line(line, &format!("err {} iter={}", panic_text(&p), dump(&self.table)));
+                        out.fail(&format!("`{}` panicked: {}", line, p.msg), &panic_ident(&p));
+                    }
+                }
+            }
+            ["add_cidr", h, v] => {
+                let Some(val) = u(v) else { return out.line(line, "bad-op") };
+                let s = String::from_utf8_lossy(&unhex(h)).to_string();
+                let t = &mut self.table;
+                match catch(|| t.add_cidr(&s, val)) {
+                    Ok(()) => {
+                        out.line(line, &format!("ok iter={}", dump(&self.table)));
+                        match text_key(&s) {
+                            (Some(key), why) => {
+                                out.count(&format!("add_cidr.accepted.{}", why));
+                                if self.shadow.insert(key, val).is_some() {
+                                    self.saw_replace_or_remove = true;
+                                }
+                            }
+                            (None, _) => out.count("add_cidr.ignored_malformed"),
+                        }
+                        self.check_table(line, w[0], out);
+                    }
+                    Err(p) => {
+                        out.line(line, &format!("err {} iter={}", panic_text(&p), dump(&self.table)));
+                        out.fail(&format!("`{}` ({:?}) panicked: {}", line, s, p.msg), &panic_ident(&p));
+                    }
+                }
+            }
+            ["remove_cidr", h] => {
+                let s = String::from_utf8_lossy(&unhex(h)).to_string();
+                let t = &mut self.table;
+                let r = catch(|| t.remove_cidr(&s));
+                let expect = text_key(&s);
+                match r {
+                    Ok(()) => {
+                        out.line(line, &format!("ok iter={}", dump(&self.table)));
+                        match expect {
+                            (Some(key), _) => {
+                                if self.shadow.remove(&key).is_some() {
+                                    self.saw_replace_or_remove = true;
+                                    out.count("remove_cidr.hit");
+                                }
+                            }
+                            // not a matter of this property (the documented panic is part of the model / correspondence only)
+                            (None, _) => out.count("remove_cidr.malformed_without_panic"),
+                        }
+                        self.check_table(line, w[0], out);
+                    }
+                    Err(p) => {
+                        let pt = panic_text(&p);
+                        out.line(line, &format!("err {} iter={}", pt, dump(&self.table)));
+                        out.count(&format!("err.{}", pt));
+                        // documented: "Panics if notation is invalid"
+                        if pt != "panic:expect:remove_cidr" || strict_cidr(&s).is_some() {
+                            out.fail(&format!("`{}` ({:?}) panicked: {}", line, s, p.msg), &panic_ident(&p));
+                        }
+                        self.check_table(line, w[0], out);
+                    }
+                }
+            }
+            ["gateway", v] => {
+                let Some(val) = u(v) else { return out.line(line, "bad-op") };
+                match catch(|| IpTable::default_gateway(val)) {
+                    Ok(t) => {
+                        self.table = t;
+                        self.shadow.clear();
+                        self.shadow.insert((0, 0), val);
+                        out.line(line, &format!("ok iter={}", dump(&self.table)));
+                        self.check_table(line, w[0], out);
+                    }
+                    Err(p) => {
+                        out.line(line, &format!("err {} iter={}", panic_text(&p), dump(&self.table)));
+                        out.fail(&format!("`{}` panicked: {}", line, p.msg), &panic_ident(&p));
+                    }
+                }
+            }
+            ["gets", rest @ ..] => {
+                let Some(addrs) = rest.iter().map(|s| u(s)).collect::<Option<Vec<u32>>>() else { return out.line(line, "bad-op") };
+                let t = &self.table;
+                match catch(|| addrs.iter().map(|a| t.get_recipient(ip(*a))).collect::<Vec<_>>()) {
+                    Ok(rs) => {
+                        out.line(line, &rs.iter().map(|r| show_opt(*r)).collect::<Vec<_>>().join(" "));
+                        for (a, r) in addrs.iter().zip(rs.iter()) {
+                            let (exp, ncontaining) = self.o_lpm(*a);
+                            out.count(&format!("lookup.containing.{}", ncontaining.min(4)));
+                            if ncontaining >= 2 {
+                                self.saw_nested_lookup = true;
+                            }
+                            if exp != *r {
+                                let mut keys: Vec<_> = self.shadow.iter().filter(|(k, _)| o_contains(k.0, k.1, *a)).map(|(k, v)| format!("{}/{}={}", ip(k.0), k.1, v)).collect();
+                                keys.sort();
+                                out.fail(
+                                    &format!("get_recipient({}) = {:?} but the most specific of the networks containing it [{}] gives {:?}", ip(*a), r, keys.join(", "), exp),
+                                    "lookup-not-longest-prefix",
+                                );
+                            }
+                        }
+                    }
+                    Err(p) => {
+                        out.line(line, &format!("err {}", panic_text(&p)));
+                        out.fail(&format!("`{}` panicked: {}", line, p.msg), &panic_ident(&p));
+                    }
+                }
+            }
+            ["net", a, l] => {
+                let (Some(a), Some(l)) = (u(a), l64(l)) else { return out.line(line, "bad-op") };
+                if l > u32::MAX as u64 {
+                    return out.line(line, "bad-op");
+                }
+                let r = catch(|| {
+                    let n = Ipv4Net::new_short(ip(a), real_len(l));
+                    let bc = catch(|| n.broadcast());
+                    (n, bc)
+                });
+                match r {
+                    Ok((n, bc)) => {
+                        let bcs = match &bc {
+                            Ok(b) => b.to_u32().to_string(),
+                            Err(_) => "panic:add-overflow:broadcast".into(),
+                        };
+                        out.line(
+                            line,
+                            &format!("id={} len={} bits={} bc={} ips={} usable={}", n.id().to_u32(), n.mask().count_ones(), n.mask().to_u32(), bcs, n.mask().ips_in_net(), n.mask().usable_ips()),
+                        );
+                        let len = o_len(l);
+                        let id = o_id(a, len);
+                        let size = o_size(len);
+                        let mut bad = vec![];
+                        if n.id().to_u32() != id {
+                            bad.push(format!("id {} != {}", n.id(), ip(id)));
+                        }
+                        if n.mask().count_ones() != len || n.mask().to_u32() != o_bits(len) || u32::from(n.mask()) != o_bits(len) {
+                            bad.push(format!("mask {:#x} != {:#x}", n.mask().to_u32(), o_bits(len)));
+                        }
+                        match &bc {
+                            Ok(b) if b.to_u32() == o_last(id, len) => {
+                                if n.range() != (ip(id)..=ip(o_last(id, len))) {
+                                    bad.push("range() is not id..=broadcast".into());
+                                }
+                            }
+                            Ok(b) => bad.push(format!("broadcast {} != {}", b, ip(o_last(id, len)))),
+                            Err(p) => {
+                                out.fail(&format!("broadcast of {}/{} panicked: {}", ip(a), l, p.msg), &panic_ident(p));
+                            }
+                        }
+                        if n.mask().ips_in_net() != size || n.mask().usable_ips() as u64 != size.saturating_sub(2) {
+                            bad.push(format!("ips_in_net {} usable {} for size {}", n.mask().ips_in_net(), n.mask().usable_ips(), size));
+                        }
+                        let m = Ipv4Mask::from_bitcount(real_len(l));
+                        if Ipv4Net::new(ip(a), m) != n || Ipv4Net::from((ip(a), m)) != n || <(Ipv4Address, Ipv4Mask)>::from(n) != (ip(id), m) || Ipv4Address::from(m) != ip(o_bits(len)) || m.to_ipv4_address() != ip(o_bits(len)) {
+                            bad.push("constructors/conversions disagree".into());
+                        }
+                        if len == 32 && Ipv4Net::new_1(ip(a)) != n {
+                            bad.push("new_1 differs from new(ip, /32)".into());
+                        }
+                        if !bad.is_empty() {
+                            out.fail(&format!("network {}/{}: {}", ip(a), l, bad.join("; ")), "net-arithmetic");
+                        }
+                    }
+                    Err(p) => {
+                        out.line(line, &format!("err {}", panic_text(&p)));
+                        out.fail(&format!("`{}` panicked: {}", line, p.msg), &panic_ident(&p));
+                    }
+                }
+            }
+            ["contains", n, rest @ ..] => {
+                let (Some((a, l)), Some(addrs)) = (parse_net_tok(n), rest.iter().map(|s| u(s)).collect::<Option<Vec<u32>>>()) else { return out.line(line, "bad-op") };
+                match catch(|| {
+                    let net = Ipv4Net::new(ip(a), Ipv4Mask::from_bitcount(real_len(l)));
+                    addrs.iter().map(|x| net.contains(ip(*x))).collect::<Vec<bool>>()
+                }) {
+                    Ok(rs) => {
+                        out.line(line, &rs.iter().map(|b| if *b { '1' } else { '0' }).collect::<String>());
+                        let len = o_len(l);
+                        let id = o_id(a, len);
+                        for (x, r) in addrs.iter().zip(rs.iter()) {
+                            if o_contains(id, len, *x) != *r {
+                                out.fail(&format!("{}/{} contains({}) = {} but its range is {}..={}", ip(a), len, ip(*x), r, ip(id), ip(o_last(id, len))), "contains-vs-range");
+                            }
+                        }
+                    }
+                    Err(p) => {
+                        out.line(line, &format!("err {}", panic_text(&p)));
+                        out.fail(&format!("`{}` panicked: {}", line, p.msg), &panic_ident(&p));
+                    }
+                }
+            }
+            ["ovl", rest @ ..] => {
+                let Some(nets) = rest.iter().map(|s| parse_net_tok(s)).collect::<Option<Vec<(u32, u64)>>>() else { return out.line(line, "bad-op") };
+                let real: Vec<Ipv4Net> = nets.iter().map(|(a, l)| Ipv4Net::new(ip(*a), Ipv4Mask::from_bitcount(real_len(*l)))).collect();
+                let mut rows = vec![];
+                for (i, x) in real.iter().enumerate() {
+                    let mut row = String::new();
+                    for (j, y) in real.iter().enumerate() {
+                        match catch(|| x.overlaps(*y)) {
+                            Ok(r) => {
+                                row.push(if r { '1' } else { '0' });
+                                let (li, lj) = (o_len(nets[i].1), o_len(nets[j].1));
+                                let (a0, b0) = (o_id(nets[i].0, li), o_id(nets[j].0, lj));
+                                let (a1, b1) = (o_last(a0, li), o_last(b0, lj));
+                                let exp = a0.max(b0) <= a1.min(b1);
+                                out.count(if exp { "overlaps.true" } else { "overlaps.false" });
+                                if exp != r {
+                                    out.fail(&format!("{}/{} overlaps {}/{} = {} but ranges {}..={} and {}..={} {}", ip(a0), li, ip(b0), lj, r, ip(a0), ip(a1), ip(b0), ip(b1), if exp { "intersect" } else { "are disjoint" }), "overlaps-vs-ranges");
+                                }
+                            }
+                            Err(p) => {
+                                row.push('P');
+                                out.fail(&format!("overlaps panicked: {}", p.msg), &panic_ident(&p));
+                            }
+                        }
+                    }
+                    rows.push(row);
+                }
+                out.line(line, &rows.join(" "));
+            }
+            ["range", s, e] => {
+                let (Some(s), Some(e)) = (u(s), u(e)) else { return out.line(line, "bad-op") };
+                match catch(|| Ipv4Net::try_from(ip(s)..=ip(e))) {
+                    Ok(r) => {
+                        let txt = match &r {
+                            Ok(n) => format!("ok {}", show_net(n)),
+                            Err(TryFromRangeError::Empty) => "err empty".into(),
+                            Err(TryFromRangeError::Size) => "err size".into(),
+                            Err(TryFromRangeError::Start) => "err start".into(),
+                        };
+                        out.line(line, &txt);
+                        let size = e as u64 + 1 - (s as u64).min(e as u64 + 1);
+                        let exp = if s > e {
+                            "err empty".to_string()
+                        } else if !size.is_power_of_two() {
+                            "err size".into()
+                        } else if s as u64 % size != 0 {
+                            "err start".into()
+                        } else {
+                            format!("ok {}/{}", s, 32 - size.trailing_zeros())
+                        };
+                        out.count(&format!("range.{}", if exp.starts_with("ok") { "ok" } else { &exp[4..] }));
+                        if exp != txt {
+                            out.fail(&format!("range {}..={} converts to `{}`; as an aligned power-of-two block test it should be `{}`", ip(s), ip(e), txt, exp), "range-conversion");
+                        }
+                        if let Ok(n) = r {
+                            if n.range() != (ip(s)..=ip(e)) {
+                                out.fail(&format!("range {}..={} converted to {:?} whose range() differs", ip(s), ip(e), n), "range-roundtrip");
+                            }
+                        }
+                    }
+                    Err(p) => {
+                        out.line(line, &format!("err {}", panic_text(&p)));
+                        out.fail(&format!("`{}` panicked: {}", line, p.msg), &panic_ident(&p));
+                    }
+                }
+            }
+            ["mask", m] => {
+                let Some(m) = u(m) else { return out.line(line, "bad-op") };
+                match catch(|| (Ipv4Mask::try_from(m), Ipv4Mask::try_from(ip(m)))) {
+                    Ok((r, r2)) => {
+                        let txt = match &r {
+                            Ok(k) => format!("ok {} {}", k.count_ones(), k.to_u32()),
+                            Err(x) => format!("err {}", x),
+                        };
+                        out.line(line, &txt);
+                        let valid = m.leading_ones() + m.trailing_zeros() == 32;
+                        out.count(if valid { "mask.valid" } else { "mask.invalid" });
+                        let exp = if valid { format!("ok {} {}", m.leading_ones(), m) } else { format!("err {}", m) };
+                        let agree = match (&r, &r2) {
+                            (Ok(a), Ok(b)) => a == b,
+                            (Err(_), Err(b)) => *b == ip(m),
+                            _ => false,
+                        };
+                        if exp != txt || !agree {
+                            out.fail(&format!("Ipv4Mask::try_from({:#010x}) = `{}` (address form agrees: {}), expected `{}`", m, txt, agree, exp), "mask-try-from");
+                        }
+                    }
+                    Err(p) => {
+                        out.line(line, &format!("err {}", panic_text(&p)));
+                        out.fail(&format!("`{}` panicked: {}", line, p.msg), &panic_ident(&p));
+                    }
+                }
+            }
+            ["bitcount", n] => {
+                let Some(n) = l64(n).filter(|x| *x <= u32::MAX as u64) else { return out.line(line, "bad-op") };
+                match catch(|| Ipv4Mask::from_bitcount(n as u32)) {
+                    Ok(m) => {
+                        out.line(line, &format!("{} {}", m.to_u32(), m.count_ones()));
+                        if m.to_u32() != o_bits(o_len(n)) || m.count_ones() != o_len(n) {
+                            out.fail(&format!("from_bitcount({}) = {:#010x} with {} ones", n, m.to_u32(), m.count_ones()), "from-bitcount");
+                        }
+                    }
+                    Err(p) => {
+                        out.line(line, &format!("err {}", panic_text(&p)));
+                        out.fail(&format!("from_bitcount({}) panicked: {}", n, p.msg), &panic_ident(&p));
+                    }
+                }
+            }
+            ["cidr", h] => {
+                let s = String::from_utf8_lossy(&unhex(h)).to_string();
+                match catch(|| cidr_line(&s)) {
+                    Ok(txt) => {
+                        out.line(line, &txt);
+                        let strict = strict_cidr(&s);
+                        let lenient = lenient_cidr(&s);
+                        if let Some((a, l)) = strict {
+                            out.count("cidr.strict_valid");
+                            let exp = format!("ok {} {} {}/{}", a, o_bits(l), o_id(a, l), l);
+                            if txt != exp {
+                                out.fail(&format!("CIDR text {:?} denotes {}/{} but parses as `{}` (expected `{}`)", s, ip(a), l, txt, exp), "cidr-denotation");
+                            }
+                        } else if txt.starts_with("ok") {
+                            // text that denotes no network: the property is silent; classify against the recorded leniency
+                            match lenient {
+                                Some((a, l, why)) if txt == format!("ok {} {} {}/{}", a, o_bits(l), o_id(a, l), l) => out.count(&format!("cidr.lenient_accept.{}", why)),
+                                _ => out.count("cidr.lenient_accept.unrecorded"),
+                            }
+                        } else {
+                            out.count(&format!("cidr.rejected.{}", &txt[4..]));
+                        }
+                    }
+                    Err(p) => {
+                        out.line(line, &format!("err {}", panic_text(&p)));
+                        out.fail(&format!("cidr_to_ip({:?}) panicked: {}", s, p.msg), &panic_ident(&p));
+                    }
+                }
+            }
+            ["render", a, l] => {
+                let (Some(a), Some(l)) = (u(a), l64(l).filter(|x| *x <= u32::MAX as u64)) else { return out.line(line, "bad-op") };
+                match catch(|| {
+                    let n = Ipv4Net::new_short(ip(a), l as u32);
+                    let s = format!("{}/{}", n.id(), n.mask().count_ones());
+                    let back = Ipv4Net::from_cidr(&s).ok();
+                    let dbg = format!("{:?}", n);
+                    (n, s.clone(), cidr_line(&s), back, dbg)
+                }) {
+                    Ok((n, s, parsed, back, dbg)) => {
+                        out.line(line, &format!("{} {}", hex(s.as_bytes()), parsed));
+                        let len = o_len(l);
+                        let b = o_id(a, len).to_be_bytes();
+                        let exp = format!("{}.{}.{}.{}/{}", b[0], b[1], b[2], b[3], len);
+                        if s != exp || dbg != format!("Ipv4Net {{{}}}", exp) {
+                            out.fail(&format!("network {}/{} renders as {:?} / {:?}, expected {:?}", ip(a), l, s, dbg, exp), "cidr-render");
+                        }
+                        if back != Some(n) {
+                            out.fail(&format!("rendering {:?} of {:?} parses back to {:?}", s, n, back), "cidr-roundtrip");
+                        }
+                    }
+                    Err(p) => {
+                        out.line(line, &format!("err {}", panic_text(&p)));
+                        out.fail(&format!("`{}` panicked: {}", line, p.msg), &panic_ident(&p));
+                    }
+                }
+            }
+            _ => out.line(line, "bad-op"),
+        }
+    }
+}
+
+// ---------------------------------------------------------------- generators
+fn biased_len(rng: &mut Rng) -> u64 {
+    if rng.chance(1, 2) {
+        *rng.pick(&[0u64, 1, 2, 7, 8, 9, 15, 16, 17, 23, 24, 25, 30, 31, 32])
+    } else {
+        rng.range(0, 32)
+    }
+}
+
+fn biased_addr(rng: &mut Rng) -> u32 {
+    match rng.below(8) {
+        0 => *rng.pick(&[0u32, 1, 0xFFFF_FFFF, 0xFFFF_FFFE, 0x8000_0000, 0x7FFF_FFFF, 0x7F00_0001, 0x0A00_0000, 0xC0A8_0101]),
+        1 => (rng.next() as u32) & 0xFFFF_FF00,
+        2 => (rng.next() as u32) | 0x0000_00FF,
+        _ => rng.next() as u32,
+    }
+}
+
+fn hexs(s: &str) -> String {
+    hex(s.as_bytes())
+}
+
+fn cidr_text(a: u32, l: u64) -> String {
+    let b = a.to_be_bytes();
+    format!("{}.{}.{}.{}/{}", b[0], b[1], b[2], b[3], l)
+}
+
+fn malformed_cidr(rng: &mut Rng, a: u32, l: u64) -> String {
+    let good = cidr_text(a, l);
+    let b = a.to_be_bytes();
+    match rng.below(16) {
+        0 => {
+            let mut c: Vec<char> = good.chars().collect();
+            let i = rng.below(c.len() as u64) as usize;
+            c.remove(i);
+            c.into_iter().collect()
+        }
+        1 | 2 => {
+            let mut c: Vec<char> = good.chars().collect();
+            let i = rng.below(c.len() as u64 + 1) as usize;
+            c.insert(i, *rng.pick(&[' ', '+', '-', '/', '.', '0', 'a', ':', '%', '\u{e9}', '\u{ff11}', '9']));
+            c.into_iter().collect()
+        }
+        3 => good.replace('/', *rng.pick(&["", " ", "\\", "//", "/ ", "/+", "/-", "/0", "/00"])),
+        4 => format!("{}.{}.{}.{}/{}", b[0], b[1], *rng.pick(&["256", "300", "999", "1000", "01", "00", "", "-1", "+1"]), b[3], l),
+        5 => format!("{}.{}.{}.0{}/{}", b[0], b[1], b[2], b[3], l),
+        6 => format!("{}.{}.{}.{}/{}", b[0], b[1], b[2], b[3], *rng.pick(&["33", "032", "+24", "-1", "4294967295", "4294967296", "99999999999", "", " 24", "24 ", "2x", "+", "-", "++1", "+0", "000", "0x10", "٣"])),
+        7 => format!("{}{}", good, *rng.pick(&["/5", "/", "/xyz", "/33/", "//", "/ "])),
+        8 => format!("{}.{}.{}.{}", b[0], b[1], b[2], b[3]),
+        9 => (*rng.pick(&["", "/", "//", "1.2.3/8", "1.2.3.4.5/8", "1.2.3.4./8", ".1.2.3.4/8", "1..2.3/8", "/8", "a.b.c.d/8", "1.2.3.4/", "001.002.003.004/8", "255.255.255.255/32", "255.255.255.2555/8", "0255.255.255.255/8", "255.255.255.255 /8", "1.2.3.4/8/9", "1.2.3.4/+8", "0.0.0.0/0", "0.0.0.0/00"])).to_string(),
+        10 => format!("{}/{}", b[0], l),
+        11 => format!("{}.{}.{}.{}/{}", b[0], b[1], b[2], b[3], rng.range(33, 300)),
+        12 => format!(" {}", good),
+        13 => format!("{}.{}.{}.{}\u{ff0f}{}", b[0], b[1], b[2], b[3], l),
+        14 => format!("{}.{}.{}.{}/{}", b[0], b[1], b[2], b[3], rng.next()),
+        _ => good.to_uppercase().replace('.', ","),
+    }
+}
+
+struct Pool {
+    nets: Vec<(u32, u64)>,
+}
+
+fn boundaries(a: u32, l: u64) -> [u32; 4] {
+    let len = o_len(l);
+    let id = o_id(a, len);
+    let bc = o_last(id, len);
+    [id.wrapping_sub(1), id, bc, bc.wrapping_add(1)]
+}
+
+fn make_pool(rng: &mut Rng) -> Pool {
+    let base = biased_addr(rng);
+    let mut nets: Vec<(u32, u64)> = vec![];
+    let chain = rng.range(2, 5);
+    let mut lens: Vec<u64> = vec![];
+    for _ in 0..chain {
+        let l = biased_len(rng);
+        lens.push(l);
+        if rng.chance(1, 3) {
+            lens.push(if l < 32 { l + 1 } else { l - 1 });
+        }
+    }
+    for &l in &lens {
+        nets.push((base, l)); // nested chain around `base`
+        if l >= 1 && rng.chance(1, 2) {
+            nets.push((base ^ (1u32 << (32 - l)), l)); // the adjacent block of the same size
+        }
+        if rng.chance(1, 4) {
+            nets.push((o_id(base, o_len(l)) | ((rng.next() as u32) & !o_bits(o_len(l))), l)); // same net, other host bits
+        }
+    }
+    for _ in 0..rng.below(3) {
+        nets.push((biased_addr(rng), biased_len(rng)));
+    }
+    if rng.chance(1, 10) {
+        nets.push((base, rng.range(33, 40)));
+    }
+    Pool { nets }
+}
+
+fn lookup_line(rng: &mut Rng, pool: &Pool, all: bool) -> Vec<String> {
+    let mut addrs: Vec<u32> = vec![];
+    for &(a, l) in &pool.nets {
+        if all || rng.chance(1, 3) {
+            addrs.extend_from_slice(&boundaries(a, l));
+        }
+    }
+    addrs.push(pool.nets[0].0);
+    for _ in 0..3 {
+        addrs.push(rng.next() as u32);
+    }
+    addrs.chunks(24).map(|c| format!("gets {}", c.iter().map(|a| a.to_string()).collect::<Vec<_>>().join(" "))).collect()
+}
+
+fn gen_case(rng: &mut Rng, nops: u64) -> Vec<String> {
+    let pool = make_pool(rng);
+    let mut lines: Vec<String> = vec![];
+    if rng.chance(1, 25) {
+        lines.push(format!("gateway {}", rng.below(1000)));
+    }
+    let n = rng.range(nops / 3, nops);
+    for _ in 0..n {
+        let &(a0, l) = rng.pick(&pool.nets);
+        // spell the same network with arbitrary host bits half of the time
+        let a = if rng.chance(1, 2) { a0 } else { o_id(a0, o_len(l)) | ((rng.next() as u32) & !o_bits(o_len(l))) };
+        let v = rng.below(1000);
+        let bnd = boundaries(a0, l);
+        match rng.below(100) {
+            0..=47 => lines.push(format!("add {} {} {}", a, l, v)),
+            48..=60 => lines.push(format!("remove {} {}", a, l)),
+            61..=67 => lines.push(format!("add_direct {} {}", rng.pick(&[bnd[1], bnd[2], a0, a]), v)),
+            68..=71 => lines.push(format!("remove_direct {}", rng.pick(&[bnd[1], bnd[2], a0, a]))),
+            72..=73 => lines.push(format!("add1 {} {}", rng.pick(&[bnd[1], bnd[2], a0]), v)),
+            74..=84 => {
+                let s = if rng.chance(5, 6) { cidr_text(a, l) } else { malformed_cidr(rng, a, l) };
+                lines.push(format!("add_cidr {} {}", hexs(&s), v));
+            }
+            85..=91 => {
+                let s = if rng.chance(9, 10) { cidr_text(a, l) } else { malformed_cidr(rng, a, l) };
+                lines.push(format!("remove_cidr {}", hexs(&s)));
+            }
+            _ => lines.extend(lookup_line(rng, &pool, false)),
+        }
+    }
+    lines.extend(lookup_line(rng, &pool, true));
+    // all pairs
+    let mut distinct: Vec<(u32, u64)> = vec![];
+    for &(a, l) in &pool.nets {
+        if !distinct.iter().any(|&(b, m)| o_len(l) == o_len(m) && o_id(a, o_len(l)) == o_id(b, o_len(m))) && distinct.len() < 10 {
+            distinct.push((a, l));
+        }
+    }
+    lines.push(format!("ovl {}", distinct.iter().map(|(a, l)| format!("{}/{}", a, l)).collect::<Vec<_>>().join(" ")));
+    for _ in 0..2 {
+        let &(a, l) = rng.pick(&pool.nets);
+        let mut xs: Vec<u32> = boundaries(a, l).to_vec();
+        xs.push(a);
+        xs.push(rng.next() as u32);
+        lines.push(format!("contains {}/{} {}", a, l, xs.iter().map(|x| x.to_string()).collect::<Vec<_>>().join(" ")));
+        lines.push(format!("net {} {}", a, if rng.chance(1, 12) { *rng.pick(&[33u64, 34, 64, 255, 4294967295]) } else { l }));
+    }
+    // range conversions around aligned blocks
+    for _ in 0..4 {
+        let &(a, l) = rng.pick(&pool.nets);
+        let [idm1, id, bc, bcp1] = boundaries(a, l);
+        let half = (o_size(o_len(l)) / 2) as u32;
+        let (s, e) = match rng.below(12) {
+            0 | 1 | 2 => (id, bc),
+            3 => (id.wrapping_add(1), bc),
+            4 => (id, bc.wrapping_sub(1)),
+            5 => (id, bcp1),
+            6 => (idm1, bc),
+            7 => (id.wrapping_add(half), bc.wrapping_add(half)),
+            8 => (bc, id),
+            9 => (rng.next() as u32, 0xFFFF_FFFF),
+            10 => (0, rng.next() as u32),
+            _ => (rng.next() as u32, rng.next() as u32),
+        };
+        lines.push(format!("range {} {}", s, e));
+    }
+    for _ in 0..2 {
+        let l = o_len(biased_len(rng));
+        let m = match rng.below(4) {
+            0 => o_bits(l),
+            1 => o_bits(l) ^ (1u32 << rng.below(32)),
+            2 => !o_bits(l),
+            _ => rng.next() as u32,
+        };
+        lines.push(format!("mask {}", m));
+    }
+    lines.push(format!("bitcount {}", if rng.chance(1, 6) { *rng.pick(&[33u64, 34, 100, 4294967295, 2147483648]) } else { rng.range(0, 32) }));
+    for _ in 0..3 {
+        let &(a, l) = rng.pick(&pool.nets);
+        let s = if rng.chance(1, 3) { cidr_text(a, l.min(32)) } else { malformed_cidr(rng, a, l.min(32)) };
+        lines.push(format!("cidr {}", hexs(&s)));
+    }
+    let &(a, l) = rng.pick(&pool.nets);
+    lines.push(format!("render {} {}", a, l));
+    lines
+}
+
+/// every mask length x boundary addresses: one small table per (len, base)
+fn grid_case(base: u32, len: u64) -> Vec<String> {
+    let mut lines = vec![format!("add {} {} 1", base, len)];
+    let mut nets = vec![(base, len)];
+    if len > 0 {
+        lines.push(format!("add {} {} 2", base, len - 1));
+        nets.push((base, len - 1));
+        let sib = base ^ (1u32 << (32 - len));
+        lines.push(format!("add {} {} 4", sib, len));
+        nets.push((sib, len));
+    }
+    if len < 32 {
+        lines.push(format!("add {} {} 3", base, len + 1));
+        nets.push((base, len + 1));
+    }
+    let mut addrs: Vec<u32> = vec![base];
+    for &(a, l) in &nets {
+        addrs.extend_from_slice(&boundaries(a, l));
+    }
+    let al = addrs.iter().map(|a| a.to_string()).collect::<Vec<_>>().join(" ");
+    lines.push(format!("gets {}", al));
+    lines.push(format!("contains {}/{} {}", base, len, al));
+    lines.push(format!("net {} {}", base, len));
+    lines.push(format!("ovl {}", nets.iter().map(|(a, l)| format!("{}/{}", a, l)).collect::<Vec<_>>().join(" ")));
+    let [idm1, id, bc, bcp1] = boundaries(base, len);
+    for (s, e) in [(id, bc), (id, bcp1), (idm1, bc), (id.wrapping_add(1), bc), (id, bc.wrapping_sub(1)), (bc, id)] {
+        lines.push(format!("range {} {}", s, e));
+    }
+    lines.push(format!("mask {}", o_bits(o_len(len))));
+    lines.push(format!("mask {}", !o_bits(o_len(len))));
+    lines.push(format!("bitcount {}", len));
+    lines.push(format!("render {} {}", base, len));
+    lines.push(format!("cidr {}", hexs(&cidr_text(base, len))));
+    lines.push(format!("remove {} {}", base, len));
+    lines.push(format!("gets {}", al));
+    lines
+}
+
+const RULE: &str = "random tables over a pool of nested / adjacent / duplicate-spelled / random networks of all 33 mask lengths (boundary biased), histories of add/remove/add_direct/remove_direct/add1/add_cidr/remove_cidr/default_gateway, lookups at id-1,id,broadcast,broadcast+1 of every pool network plus random addresses, all-pairs overlaps, contains, range conversions around aligned blocks, mask/bitcount/CIDR text incl. malformed; a case is non-trivial if some lookup address was contained in >= 2 present networks and some add replaced or some remove hit an existing key; distinct = hash of its op lines";
 
 pub fn run(args: &Args) {
-    eprintln!("hcore: {} not implemented yet", args.prop);
-    std::process::exit(2);
+    let mut out = Out::new(&args.out);
+    if let Some(rp) = &args.replay {
+        let mut ex = Exec::new();
+        out.begin_case(0);
+        out.mark_nontrivial();
+        for l in read_ops(rp) {
+            if l.starts_with("case ") {
+                continue;
+            }
+            ex.apply(&l, &mut out);
+        }
+        ex.check_collect(&mut out);
+        out.end_case();
+        out.finish(RULE);
+        return;
+    }
+    let mut rng = Rng::new(args.seed);
+    let grid = args.prop.ends_with("-grid");
+    let nops: u64 = args.extra.get("ops").and_then(|s| s.parse().ok()).unwrap_or(24);
+    let mut c = 0u64;
+    let run_case = |lines: Vec<String>, out: &mut Out, c: u64| {
+        let mut ex = Exec::new();
+        out.begin_case(c);
+        for l in &lines {
+            ex.apply(l, out);
+        }
+        ex.check_collect(out);
+        if ex.saw_nested_lookup && ex.saw_replace_or_remove {
+            out.mark_nontrivial();
+        }
+        if ex.saw_nested_lookup {
+            out.count("case.nested_lookup");
+        }
+        if ex.saw_replace_or_remove {
+            out.count("case.replace_or_remove");
+        }
+        out.count(&format!("table_size.{}", ex.shadow.len().min(12)));
+        out.end_case();
+    };
+    if grid {
+        // `cases` = number of bases per mask length
+        let fixed = [0u32, 0xFFFF_FFFF, 0x8000_0000, 0x7FFF_FFFF, 0x0A00_0077, 0xC0A8_01FE];
+        for len in 0..=32u64 {
+            for k in 0..args.cases {
+                let base = if (k as usize) < fixed.len() { fixed[k as usize] } else { rng.next() as u32 };
+                run_case(grid_case(base, len), &mut out, c);
+                c += 1;
+            }
+        }
+    } else {
+        for _ in 0..args.cases {
+            let mut r = rng.fork();
+            run_case(gen_case(&mut r, nops), &mut out, c);
+            c += 1;
+        }
+    }
+    out.finish(RULE);
 }
